@@ -17,6 +17,7 @@ DELAYS = [0.25, 0.5, 1.0]
 OPS = ([("cb",), ("cb_raise",), ("cb_failfut",), ("spawn",), ("cb_nested",)] +
        [(k, d) for k in ("to_abs", "to_delta", "later", "at") for d in DELAYS] +
        [("to_delta", 86400.5), ("to_delta", -1.0)] +
+       [("block", 0.6), ("to_abs_at", 0.5), ("to_abs_at", 0.3), ("addfut_cf_done",)] +
        [("rm", 0), ("rm", 1), ("cb_rm", 0), ("cb_rm", 1), ("to_rm", 0.75, 0), ("to_rm", 0.4, 1),
         ("addfut_done",), ("addfut_later",), ("to_raise", 0.6)])
 
@@ -42,7 +43,10 @@ def run_program(prog):
 
         def reg(name, kind, deadline=None):
             seq[0] += 1
-            sched[name] = {"kind": kind, "seq": seq[0], "deadline": deadline, "removed": None, "sched_log_len": len(log)}
+            # a deadline that has already passed when the timeout is added counts as "due now" for the ordering
+            eff = None if deadline is None else max(deadline, w.loop.vtime)
+            sched[name] = {"kind": kind, "seq": seq[0], "deadline": deadline, "eff": eff, "removed": None,
+                           "sched_log_len": len(log)}
 
         def remove(j):
             if j < len(handles):
@@ -100,6 +104,19 @@ def run_program(prog):
                 else:
                     hd = io.call_at(io.time() + d, mk(name))
                 handles.append((name, hd))
+            elif k == "block":
+                w.loop.vtime += op[1]         # the loop is busy for a while: time passes, nothing runs
+            elif k == "to_abs_at":
+                # an absolute deadline counted from the start of the program (it may already have passed)
+                reg(name, "timeout", op[1])
+                handles.append((name, io.call_at(io.time() - w.loop.vtime + op[1], mk(name))))
+            elif k == "addfut_cf_done":
+                import concurrent.futures
+                reg(name, "addfut")
+                cf = concurrent.futures.Future()
+                cf.set_result(3)
+                io.add_future(cf, lambda f_: log.append((name, w.loop.vtime)))
+                log.append((name + "#returned", w.loop.vtime))
             elif k == "to_raise":
                 reg(name, "timeout", w.loop.vtime + op[1])
 
@@ -172,8 +189,8 @@ def judge_program(prog, o):
         if t < sched[n]["deadline"] - 1e-6:
             bad.append(("timeout-early", "%s ran at %.6f, deadline %.6f" % (n, t, sched[n]["deadline"])))
     for (a, ta), (b, tb) in zip(tos, tos[1:]):
-        if sched[a]["deadline"] > sched[b]["deadline"] + 1e-6:
-            bad.append(("timeout-order", "%s (deadline %.3f) ran before %s (deadline %.3f)" % (a, sched[a]["deadline"], b, sched[b]["deadline"])))
+        if sched[a]["eff"] > sched[b]["eff"] + 1e-6:
+            bad.append(("timeout-order", "%s (deadline %.3f) ran before %s (deadline %.3f)" % (a, sched[a]["eff"], b, sched[b]["eff"])))
     for name, info in sched.items():
         if info["kind"] == "addfut" and name in names and (name + "#returned") in names:
             if names.index(name) < names.index(name + "#returned"):
@@ -238,6 +255,37 @@ def run_sync_case(kind, timeout):
                 "escaped": [str(c.get("message"))[:80] for c in w.loop_errors()]}
 
 
+def run_sync_after_stopped(timeout):
+    """run_sync(timeout=T) that ends early because the loop was stopped, then a second run_sync on the same loop that
+    takes longer than T: it must return its result."""
+    from asyncio import events
+    from tornado import gen
+    with World() as w:
+        io = w.ioloop
+
+        async def stopper():
+            io.add_callback(io.stop)
+            await asyncio.Future()
+
+        async def sleeper():
+            await gen.sleep(3 * timeout)
+            return "slept"
+        events._set_running_loop(None)
+        res = []
+        try:
+            for fn, kw in ((stopper, {"timeout": timeout}), (sleeper, {})):
+                try:
+                    res.append(("ok", io.run_sync(fn, **kw)))
+                except Livelock as e:
+                    res.append(("deadlock", str(e)[:40]))
+                except BaseException as e:
+                    res.append(("exc", type(e).__name__))
+        finally:
+            events._set_running_loop(w.loop)
+        w.pump()
+        return {"res": res, "vtime": w.loop.vtime}
+
+
 def judge_sync(kind, timeout, o):
     want = {"returns": ("ok", 42), "raises": ("exc", "Boom"), "sleeps": ("ok", "slept"), "plain": ("ok", None),
             "plain_raises": ("exc", "Boom"), "gen_style": ("ok", "gen")}.get(kind)
@@ -266,9 +314,10 @@ def judge_sync(kind, timeout, o):
 class C38(Check):
     id = "C38"
     level = "model_checking"
-    rule = ("(a) all programs of <= L scheduling calls over 28 operations {add_callback, spawn_callback, raising callback, "
+    rule = ("(a) all programs of <= L scheduling calls over 32 operations {add_callback, spawn_callback, raising callback, "
             "callback returning a failing future, callback scheduling a callback and a timeout, add_timeout absolute / "
-            "timedelta, call_later, call_at with delays 0.25/0.5/1.0, timedelta of 1 day + 0.5 s and of -1 s, a raising timeout, remove_timeout of the 1st/2nd "
+            "timedelta, call_later, call_at with delays 0.25/0.5/1.0, timedelta of 1 day + 0.5 s and of -1 s, the loop being busy for 0.6 s, absolute deadlines 0.3 / 0.5 s after the "
+            "program start (possibly already past), add_future on a done concurrent.futures.Future, a raising timeout, remove_timeout of the 1st/2nd "
             "timeout immediately / from a callback / from a timeout, add_future on a done and on a pending future} on the "
             "real IOLoop with a virtual clock, timers fired in order; (b) run_sync x {async returns, raises, sleeps, never "
             "finishes, plain function returns / raises, gen.coroutine} x timeout {None, 0.5, 2}; (c) 2 foreign threads x 2 "
@@ -281,7 +330,8 @@ class C38(Check):
              "deadline and cancels the function; callbacks added from other threads each run once, in per-thread order, on "
              "the loop thread, and the loop is always woken.")
     technique = "exhaustive enumeration of scheduling programs on the real IOLoop with a virtual clock + preemption-bounded thread schedule exploration"
-    assumptions = ["ties between equal deadlines and between a zero-delay timeout and a callback are not ordered by the statement"]
+    assumptions = ["ties between equal deadlines and between a zero-delay timeout and a callback are not ordered by the statement",
+                   "a timeout added when its deadline has already passed is ordered as if its deadline were the time of adding"]
 
     def partitions(self, tier):
         L = 3 if tier == "quick" else 4
@@ -329,6 +379,15 @@ class C38(Check):
                     for sig, msg in judge_sync(kind, timeout, o):
                         st.violation("sync:" + sig, "run_sync(%s, timeout=%r): %s" % (kind, timeout, msg),
                                      {"kind": "sync", "fn": kind, "timeout": timeout})
+            for timeout in (0.5, 2):
+                o = run_sync_after_stopped(timeout)
+                st.ev()
+                st.states.add(h(("sync2", timeout)))
+                st.nontrivial.add(h(("sync2", timeout)))
+                if o["res"] != [("exc", "RuntimeError"), ("ok", "slept")]:
+                    st.violation("sync:second-run_sync-after-a-stopped-one", "run_sync(timeout=%r) stopped early, then "
+                                 "run_sync(sleep %r): %r, expected [RuntimeError, 'slept']" % (timeout, 3 * timeout, o["res"]),
+                                 {"kind": "sync2", "timeout": timeout})
         else:
             from checks import c38_threads
             c38_threads.run_bound(part[1], st, floop=part[2])
@@ -338,6 +397,8 @@ class C38(Check):
             prog = tuple(tuple(op) for op in case["prog"])
             o = run_program(prog)
             return "program %r\nlog %r\nerrlogs %r\nverdict %r" % (prog, o["log"], o["errlogs"], judge_program(prog, o))
+        if case["kind"] == "sync2":
+            return repr(run_sync_after_stopped(case["timeout"]))
         if case["kind"] == "sync":
             o = run_sync_case(case["fn"], case["timeout"])
             return "%r\nverdict %r" % (o, judge_sync(case["fn"], case["timeout"], o))
